@@ -48,11 +48,14 @@ type replayerWorld struct {
 	nextAuto    uint64
 	tagSeq      int
 	usedEmptyID bool
-	wide        bool          // large topic sets (wideTopics)
-	gcLo        time.Duration // earliest / latest instant of the latest collection, over all readings of the documentation
-	gcHi        time.Duration
-	anyPut      bool
-	ops         []string
+	wide        bool // large topic sets (wideTopics)
+	prefixBase  []string
+	// the slice passed to the previous Replay and what it held then
+	lastReplayTopics, lastReplayIntent []string
+	gcLo                               time.Duration // earliest / latest instant of the latest collection, over all readings of the documentation
+	gcHi                               time.Duration
+	anyPut                             bool
+	ops                                []string
 }
 
 func (w *replayerWorld) clockNow() time.Time { return w.epoch.Add(w.now) }
@@ -121,6 +124,14 @@ func (w *replayerWorld) topics(label string, forMessage bool) []string {
 	if w.wide {
 		return genTopicsWide(w.ch, label, forMessage)
 	}
+	if w.ch.Chance(1, 6, label+" topics are a prefix of one shared array") {
+		// a caller that keeps one array of topics (a path org, team, user) and passes prefixes of it:
+		// two topic lists are the same only if they have the same elements, whatever memory they share
+		if w.prefixBase == nil {
+			w.prefixBase = []string{"a", sse.DefaultTopic, "b", "c"}
+		}
+		return w.prefixBase[:1+w.ch.Intn(len(w.prefixBase), label+" prefix length")]
+	}
 	return genTopics(w.ch, label)
 }
 
@@ -161,7 +172,11 @@ func (w *replayerWorld) doPutKind(kind int) {
 	}
 	if hasID {
 		idStr = "id" + strconv.Itoa(w.tagSeq)
-		if !w.usedEmptyID && kind == 0 && ch.Chance(1, 8, "empty id") {
+		if w.finite && kind == 0 && len(w.all) >= w.n && ch.Chance(1, 6, "reuse the ID of the event this Put evicts") {
+			// IDs that cycle (a sequence number modulo N): no two buffered events ever share one
+			idStr = w.all[len(w.all)-w.n].id
+			w.o.probe("Put reusing the ID of the event it evicts")
+		} else if !w.usedEmptyID && kind == 0 && ch.Chance(1, 8, "empty id") {
 			// the empty string is a legal, set ID (distinct from an unset one)
 			idStr = ""
 			w.usedEmptyID = true
@@ -300,6 +315,11 @@ func (w *replayerWorld) doReplayBiased(classWeights []int) {
 		ev := w.all[ch.Intn(len(w.all)-w.n, "evicted index")]
 		id = sse.ID(ev.id)
 		desc = "evicted " + ev.id
+		for k, e := range live {
+			if e.id == ev.id && !w.auto {
+				pos, class = k, idMiddle // its ID was given to a later event that is still buffered
+			}
+		}
 	case class == idNonCanonical && w.auto && len(live) > 0:
 		p := ch.Intn(len(live), "presented index")
 		forms := []string{"0" + live[p].id, "+" + live[p].id, " " + live[p].id, live[p].id + " ", "00" + live[p].id}
@@ -342,6 +362,15 @@ func (w *replayerWorld) doReplayBiased(classWeights []int) {
 		}
 	}
 	topics := w.topics("replay", false)
+	if w.lastReplayTopics != nil && ch.Chance(1, 4, "the same topics slice as in the previous Replay") {
+		// the same Subscription value replayed again (a reconnecting client's stored subscription): what the
+		// caller means is what it put into the slice; a replayer that edits the slice in place changes it
+		topics = w.lastReplayTopics
+		w.o.probe("Replay with the slice object of the previous Replay")
+	} else {
+		w.lastReplayTopics, w.lastReplayIntent = topics, append([]string(nil), topics...)
+	}
+	intent := w.lastReplayIntent
 	sub := &simSub{ID: 1}
 	if ch.Chance(1, 5, "replay fault") {
 		if ch.Chance(1, 4, "flush fault") {
@@ -352,7 +381,8 @@ func (w *replayerWorld) doReplayBiased(classWeights []int) {
 		sub.Disguise = drawDisguise(ch, "replay failure")
 	}
 	err := w.r.Replay(sse.Subscription{Client: sub, LastEventID: id, Topics: topics})
-	w.op("Replay(id=%s topics=%s failSend=%d failFlush=%d)@%v -> %d sends err=%v", desc, fmtTopics(topics), sub.FailSendAt, sub.FailFlushAt, w.now, sub.sends, err)
+	w.op("Replay(id=%s topics=%s failSend=%d failFlush=%d)@%v -> %d sends err=%v", desc, fmtTopics(intent), sub.FailSendAt, sub.FailFlushAt, w.now, sub.sends, err)
+	topics = intent
 
 	prop := "C08"
 	if !w.finite {
